@@ -114,6 +114,7 @@ def _run_chunk(args):
     mod = _G["mod"]
     ctx = _G["ctx"]
     res = []
+    tok = mod.chunk_begin(ctx) if hasattr(mod, "chunk_begin") else None
     for i, case in enumerate(chunk):
         try:
             o = mod.run_case(ctx, case)
@@ -139,6 +140,11 @@ def _run_chunk(args):
         k = o.key if o.key is not None else case
         fam = case[0] if isinstance(case, (tuple, list)) and case and isinstance(case[0], str) else ""
         res.append(((fam + ":" + o.cls) if fam else o.cls, o.nontrivial, case_hash(k), o.viols, o.extra, lo + i))
+    if hasattr(mod, "chunk_end") and res:
+        more = mod.chunk_end(ctx, tok, chunk)
+        if more:
+            last = res[-1]
+            res[-1] = (last[0], last[1], last[2], list(last[3]) + list(more), last[4], last[5])
     return res
 
 
